@@ -11,6 +11,7 @@ from .wf import KEYWORDS
 NAMES = ["a", "b", "x", "y", "count", "Foo_1", "zz9", "tmp", "i", "n"]
 KW_NAMES = ["top", "order", "into", "by", "fetch", "from", "where", "select", "using", "distinct"]   # accepted as identifiers
 TYPES = ["Int", "aFoo", "tBar", "CString", "Num4"]
+TLITS = ["1", "9", "'a'", "'z'", "0"]
 LITS = ["12", "3.5", "'s t'", "true", "FALSE", "nil", "0"]
 ASSIGN = ["=", "=", "=", "-=", "+=", ":="]
 
@@ -75,8 +76,12 @@ class Gen:
             self.tag("SC"); self.w(self.r.choice(["exit", "break", "continue"]))
         elif c == 6:
             self.count("lvar")
-            self.tag("SV"); self.w("var"); self.w(self.r.choice(NAMES)); self.w(":"); self.w(self.r.choice(TYPES))
-            self.absolute()
+            if self.r.chance(1, 5):
+                self.count("type-stmt")
+                self.tag("ST"); self.typedecl()
+            else:
+                self.tag("SV"); self.w("var"); self.w(self.r.choice(NAMES)); self.w(":"); self.ty()
+                self.absolute()
         elif c == 7:
             self.count("uses-stmt")
             self.tag("SS"); self.uses()
@@ -127,6 +132,51 @@ class Gen:
             self.stmts(depth - 1); self.w("endfor")
 
     # ---- pieces shared by statements and declarations ---------------------------------------
+    def idx(self):
+        if self.r.chance(1, 2):
+            self.tag("IB"); self.w("["); self.w(self.r.choice(TYPES)); self.w("]")
+        else:
+            self.tag("IR"); self.w("["); self.w(self.r.choice(TLITS)); self.w("to"); self.w(self.r.choice(TLITS)); self.w("]")
+
+    def ty(self):
+        c = self.r.below(12)
+        if c <= 3:
+            self.count("type:basic")
+            self.tag("YB"); self.w(self.r.choice(TYPES))
+        elif c == 4:
+            self.count("type:sized")
+            self.tag("YS"); self.w(self.r.choice(TYPES)); self.w("("); self.w(self.r.choice(["1", "20", "255"])); self.w(")")
+        elif c in (5, 6):
+            self.count("type:ref")
+            self.tag("YR"); self.w(self.r.choice(["refTo", "listOf"])); self.w(self.r.choice(TYPES))
+            if self.r.chance(1, 3):
+                self.tag("+"); self.w("inverse"); self.w(self.r.choice(NAMES))
+            else:
+                self.tag("-")
+        elif c == 7:
+            self.count("type:range")
+            self.tag("YG"); self.w(self.r.choice(TLITS)); self.w("to"); self.w(self.r.choice(TLITS))
+        elif c == 8:
+            self.count("type:set")
+            self.tag("YE"); self.w("["); self.w(self.r.choice(TYPES)); self.w("]")
+        elif c == 9:
+            self.count("type:pointer")
+            self.tag("YP"); self.w("."); self.w(self.r.choice(TYPES))
+        elif c == 10:
+            self.count("type:array")
+            self.tag("YA"); self.w(self.r.choice(["array", "sequence"])); self.idx()
+            if self.r.chance(1, 3):
+                self.tag("+"); self.idx()
+            else:
+                self.tag("-")
+            self.w("of"); self.w(self.r.choice(TYPES))
+        else:
+            self.count("type:instanceof")
+            self.tag("YI"); self.w("instanceOf"); self.w(self.r.choice(TYPES))
+
+    def typedecl(self):
+        self.w("type"); self.w(self.r.choice(TYPES)); self.w(":"); self.ty()
+
     def absolute(self):
         if self.r.chance(1, 4):
             self.count("absolute")
@@ -154,7 +204,7 @@ class Gen:
             self.tag("M"); self.w(self.r.choice(["const", "var", "inout"]))
         else:
             self.tag("N")
-        self.w(self.name()); self.w(":"); self.w(self.r.choice(TYPES))
+        self.w(self.name()); self.w(":"); self.ty()
 
     def params(self):
         c = self.r.below(4)
@@ -203,7 +253,11 @@ class Gen:
             self.tag("-")
 
     def decl(self, depth):
-        c = self.r.below(10)
+        c = self.r.below(11)
+        if c == 10:
+            self.count("type-decl")
+            self.tag("DT"); self.typedecl()
+            return
         if c == 8:
             self.count("module")
             self.tag("DM"); self.w("module"); self.w("aMod")
@@ -230,7 +284,7 @@ class Gen:
                 self.tag("+"); self.w("memory")
             else:
                 self.tag("-")
-            self.w(self.r.choice(NAMES)); self.w(":"); self.w(self.r.choice(TYPES))
+            self.w(self.r.choice(NAMES)); self.w(":"); self.ty()
             self.tag("{")
             for _ in range(self.r.choice([0, 0, 0, 1, 2])):
                 self.count("field-modifier")
